@@ -173,8 +173,6 @@ impl Scheduler {
 
         // Push to the appropriate queue.
         if urgent {
-            #[cfg(folo_verif)]
-            crate::verif_hook::point("spawn:urgent_queue.push");
             state
                 .urgent_queue
                 .lock()
@@ -187,8 +185,6 @@ impl Scheduler {
                 "spawned urgent task"
             );
         } else {
-            #[cfg(folo_verif)]
-            crate::verif_hook::point("spawn:regular_queue.push");
             state
                 .regular_queue
                 .lock()
@@ -239,8 +235,6 @@ impl Scheduler {
 
         // Push to the appropriate queue.
         if urgent {
-            #[cfg(folo_verif)]
-            crate::verif_hook::point("spawn:urgent_queue.push");
             state
                 .urgent_queue
                 .lock()
@@ -253,8 +247,6 @@ impl Scheduler {
                 "spawned urgent fire-and-forget task"
             );
         } else {
-            #[cfg(folo_verif)]
-            crate::verif_hook::point("spawn:regular_queue.push");
             state
                 .regular_queue
                 .lock()
@@ -280,8 +272,6 @@ impl Scheduler {
 
 /// Allocates and initializes a task without invoking task code under the pool lock.
 fn allocate_task<T: VicinalTask>(state: &ProcessorState, task: T) -> ErasedTaskHandle {
-    #[cfg(folo_verif)]
-    crate::verif_hook::point("spawn:task_pool.lock");
     let slot = {
         let pool = state.task_pool.lock().expect(NEVER_POISONED);
         pool.try_alloc_uninit_box()
